@@ -116,14 +116,20 @@ func (r *region[R]) shouldBeInControl(candidate *Gate[R]) bool {
 	return higherAuth || betterPos
 }
 
-// release a gate from the region. The region lock is released before calling
-// controller.remove to maintain consistent lock ordering (controller.mu before
-// region.RWMutex), preventing AB-BA deadlocks with OpenGate.
+// release a gate from the region. The controller lock is acquired before the region
+// lock (the same order as OpenGate, so the two cannot deadlock) and held until an empty
+// region has been removed from the controller. Releasing the last gate and removing
+// the region is therefore a single step for OpenGate: a concurrent OpenGate either
+// joins the region before the release, and then receives control from it, or finds the
+// region gone and opens a new one with a new resource. It can never attach a gate to a
+// region whose resource has been handed back to the releasing caller for disposal.
 func (r *region[R]) release(g *Gate[R]) (res R, transfer Transfer) {
+	r.controller.mu.Lock()
+	defer r.controller.mu.Unlock()
 	r.Lock()
+	defer r.Unlock()
 	r.gates.Remove(g)
 	if r.curr != g {
-		r.Unlock()
 		return res, transfer
 	}
 	r.curr = nil
@@ -134,13 +140,10 @@ func (r *region[R]) release(g *Gate[R]) (res R, transfer Transfer) {
 			transfer.To = candidate.state()
 		}
 	}
-	shouldRemove := transfer.IsRelease()
-	res = r.resource
-	r.Unlock()
-	if shouldRemove {
-		r.controller.remove(r)
+	if transfer.IsRelease() {
+		r.controller.unsafeRemove(r)
 	}
-	return res, transfer
+	return r.resource, transfer
 }
 
 // update a gate's authority.
